@@ -54,6 +54,17 @@ partial def showJ : JS.J → String
     let sorted := ms.foldl (fun acc m => insertBy (fun a b => String.ofList a.1 ≤ String.ofList b.1) m acc) []
     s!"O{ms.length}" ++ String.join (sorted.map (fun m => " " ++ hexOf m.1 ++ " " ++ showJ m.2))
 
+/-- the datetime literals the JSON reader accepts (chrono's `FromStr`, through serde): the RFC 3339 shapes of
+`isDatetimeLit`, and a signed year of four or more digits (what `to_rfc3339` writes for years before 0 and after 9999) -/
+def isDatetimeJson (s : List Char) : Bool :=
+  match s with
+  | c :: r =>
+    if c = '-' ∨ c = '+' then
+      let ds := r.takeWhile Char.isDigit
+      decide (4 ≤ ds.length) && isDatetimeLit (ds.drop (ds.length - 4) ++ r.dropWhile Char.isDigit)
+    else isDatetimeLit s
+  | [] => false
+
 /-- prefix form of a data value: N | T | F | I<int> | S<hex> | X<hex float literal> | D<hex datetime literal> | L<count> … -/
 partial def parseDVJ : List String → Option (JS.DVJ × List String)
   | [] => none
@@ -105,7 +116,7 @@ def js (args : List String) : String :=
   | "rval" :: toks =>
     match parseJ toks with
     | some (j, []) =>
-      match JS.readValue isDatetimeLit (fun z => (toString z ++ ".0").toList) 64 j with
+      match JS.readValue isDatetimeJson (fun z => (toString z ++ ".0").toList) 64 j with
       | .ok v => "ok " ++ showDVJ v
       | .err _ => "err"
       | .panic m => "panic:" ++ m
